@@ -5,7 +5,7 @@ enumerated case is rendered to XML (distinct value per tag instance, decimal and
 section) and read by the real parameter_reader; TLC (ParamsTrace) compares verdict and every field of the returned structures with
 the specification.  'Governs the run': density, damping and time step through a replay of spec/Integrate's behaviours into the real integrator (as in C03);
 dt, T, S, l_min through C19 / C11 / C04, whose scenarios' observables depend on them."""
-import json, os, random, shutil
+import json, os, random, re, shutil
 import vlib
 from vlib import Check, ModelError
 
@@ -222,6 +222,107 @@ def run(tier, seed, replay=None):
             for i in fbad.get("P_EnergyGradients", []):
                 chk.violation("impl:governs_forces:%s" % json.dumps(fcases[i]["params"]), "bulk modulus / tensions / bending moduli do not govern the internal forces as gradients of the energies built from them, on %s: %s %s" % (
                     json.dumps(fcases[i]), frows[i].get("fd_rel"), frows[i].get("fd_bending")), {"governs_force_case": fcases[i]})
+    # ---- "govern the run", start-up: <perform_initial_triangulation> and <min_edge_length> are consumed before the first iteration, by
+    # the XML constructor of simulation_initializer (the path of main()).  One file with an octahedron and a cube, started up with
+    # flag 0 / 1 x coarse / fine edge length; spec/Io/StartupTrace states what each value has to mean for the cells handed over.
+    if not replay:
+        import c17, subprocess
+        sdir = vlib.build("m1d0", ["startup_driver"])
+        U = 1e-5 / c17.UNIT
+        octa = [(1, 0, 0), (-1, 0, 0), (0, 1, 0), (0, -1, 0), (0, 0, 1), (0, 0, -1)]
+        cube = [(x, y, z) for x in (4, 5.6) for y in (0, 1.6) for z in (0, 1.6)]
+        otri = [[0, 2, 4], [2, 1, 4], [1, 3, 4], [3, 0, 4], [2, 0, 5], [1, 2, 5], [3, 1, 5], [0, 3, 5]]
+        ctri = [[0, 1, 3], [0, 3, 2], [4, 6, 7], [4, 7, 5], [0, 4, 5], [0, 5, 1], [2, 3, 7], [2, 7, 6], [0, 2, 6], [0, 6, 4], [1, 5, 7], [1, 7, 3]]
+        row = lambda tris, off: [1 + 4 * len(tris), len(tris)] + [x for t in tris for x in [3] + [v + off for v in t]]
+        f = {"npoints": 14, "coords": [tuple(U * k for k in p) for p in octa + cube], "ncells": 2, "nints": 2 + 4 * 20 + 2 - 2,
+             "rows": [row(otri, 0), row(ctri, 6)], "ntypes": 2, "ctypes": [42, 42], "cdn": 2, "typeids": [0, 1]}
+        f["nints"] = sum(len(r) for r in f["rows"])
+        mesh_path = os.path.join(work, "startup.vtk")
+        with open(mesh_path, "w") as fh:
+            fh.write(c17.render_vtk(f))
+        shapes = {}
+        for flag in (0, 1):
+            for name, lmin in (("coarse", "2e-6"), ("fine", "1e-6")):
+                xml = c17.base_xml(mesh_path, random.Random(seed), flag)
+                xml = re.sub(r"<min_edge_length>[^<]*</min_edge_length>", "<min_edge_length>%s</min_edge_length>" % lmin, xml)
+                xp = os.path.join(work, "startup_%d_%s.xml" % (flag, name))
+                with open(xp, "w") as fh:
+                    fh.write(xml)
+                try:
+                    p = subprocess.run([os.path.join(sdir, "startup_driver"), xp], capture_output=True, text=True, timeout=120)
+                    last = ([l for l in p.stdout.splitlines() if l.startswith("OUTCOME")] or [""])[-1]
+                except subprocess.TimeoutExpired:
+                    last = "timeout"
+                m = re.search(r"OUTCOME completed cells=2 shape=(\d+):(\d+),(\d+):(\d+)", last)
+                if m:
+                    shapes[(flag, name)] = [(int(m.group(1)), int(m.group(2))), (int(m.group(3)), int(m.group(4)))]
+                elif flag == 0 or not last.startswith("OUTCOME std_exception"):
+                    # with flag 0 a valid file must be accepted as it is; with flag 1 a clean refusal after ten attempts is C13's business
+                    chk.violation("impl:governs_startup:outcome:%d:%s" % (flag, name), "start-up on a valid two-cell file with perform_initial_triangulation=%d, "
+                                  "min_edge_length=%s ended with: %s" % (flag, lmin, last[:200]), {"xml": xml, "vtk": c17.render_vtk(f)})
+        srows = []
+        if len(shapes) == 4:
+            for ci, (fn, ff) in enumerate(((6, 8), (8, 12))):
+                r = {"kind": "startup", "cell": ci, "file_nodes": fn, "file_faces": ff}
+                for flag, fl in ((0, "off"), (1, "on")):
+                    for name in ("coarse", "fine"):
+                        r["n_%s_%s" % (fl, name)], r["f_%s_%s" % (fl, name)] = shapes[(flag, name)][ci]
+                srows.append(r)
+            ns, sbad = vlib.tlc_validate_records(os.path.join(vlib.ROOT, "spec", "Io"), "StartupTrace", "StartupTrace.cfg", srows, chunk=10, par=1, workers=2)
+            chk.cov["traces_validated_against_impl"] += ns
+            chk.cov["evaluations"] += ns
+            for inv, idxs in sorted(sbad.items()):
+                for i in idxs:
+                    chk.violation("impl:governs_startup:%s:cell%d" % (inv, i), "perform_initial_triangulation / min_edge_length do not govern the start-up as named "
+                                  "(%s): %s" % (inv, json.dumps(srows[i])), {"record": srows[i]})
+            # negative control: a record in which the flag was ignored
+            ctl = dict(srows[0]); ctl["n_off_coarse"], ctl["f_off_coarse"] = ctl["n_on_coarse"], ctl["f_on_coarse"]
+            _, cb = vlib.tlc_validate_records(os.path.join(vlib.ROOT, "spec", "Io"), "StartupTrace", "StartupTrace.cfg", [ctl], chunk=10, par=1, workers=2)
+            if 0 not in cb.get("P_FlagOffKeepsTheMesh", []):
+                raise ModelError("StartupTrace accepts a record in which the triangulation flag was ignored")
+        chk.cov["governs_startup"] = {"runs": 4, "complete_records": len(srows), "shapes": {"%d/%s" % k: v for k, v in shapes.items()}}
+        if not srows and not chk.violations:
+            raise ModelError("vacuous: the start-up stage produced no complete record: %r" % shapes)
+    # ---- "govern the run", edge length: in real solver runs (growing cells, so that edges become too long) no edge of a cell whose
+    # refinement pass ended normally is longer than three minimum edge lengths right after the refinement phase, for several values
+    # of <min_edge_length> (TissueTrace tag C18_EdgeLengthGoverns; the design-level counterpart is RefinePass.Complete)
+    if not replay:
+        import tissue_common as tc
+        far = 3.0 * tc.R
+        scns = []
+        for name, lm in (("edge_a", 0.33 * tc.R), ("edge_b", 0.25 * tc.R), ("edge_c", 0.45 * tc.R)):
+            scns.append(tc.scenario(name, [tc.cell(0, 0, growth=6e-10), tc.cell(1, far, growth=4e-10), tc.cell(2, 2 * far, growth=0.0)], [],
+                                    T_ns=3000 if tier == "quick" else 9000, threads=2, level_lmin=lm, seed=seed))
+        results = tc.run_scenarios("m1d0", scns, work)
+        validated = tc.validate_all(results, work)
+        tc.report(chk, "C18", validated)
+        grown = complete = 0
+        last_nodes = {}
+        for sres in results:
+            ev = sres[1]
+            first = {c["id"]: c["nn"] for c in ev[0]["cells"]} if ev and "cells" in ev[0] else {}
+            for e in ev:
+                if e.get("e") == "phase" and e.get("k") == 4:
+                    complete += sum(1 for c in e["cells"] if c["pass_complete"])
+                    grown += sum(1 for c in e["cells"] if c["nn"] > first.get(c["id"], 10 ** 9))
+                    last_nodes[sres[0]["name"]] = sum(c["nn"] for c in e["cells"])
+        chk.cov["governs_edge_length"] = {"runs": len(scns), "cell_passes_ended_normally": complete, "of_which_after_the_mesh_had_grown": grown,
+                                          "nodes_after_the_last_refinement": last_nodes}
+        if not complete or not grown:
+            raise ModelError("vacuous: edge-length stage saw %d normal passes, %d on refined meshes" % (complete, grown))
+        drift = {k: v for k, v in chk.cov.get("other_property_tags", {}).items() if k.startswith("D_")}
+        if drift:
+            chk.cov["design_drift"] = drift
+            vlib.log("NOTE design drift (the solver's choice of thresholds differs from the one spec/Refine and this stage assume; no listed statement names it): %s" % drift)
+        if not all(n in last_nodes for n in ("edge_a", "edge_b", "edge_c")):
+            raise ModelError("vacuous: an edge-length run did not reach a refinement phase: %r" % last_nodes)
+        if all(r[2] == 0 for r in results):
+            rrow = {"kind": "run", "lmin_over_R": [0.25, 0.33, 0.45], "nodes": [last_nodes["edge_b"], last_nodes["edge_a"], last_nodes["edge_c"]]}
+            nr, rbad = vlib.tlc_validate_records(os.path.join(vlib.ROOT, "spec", "Io"), "StartupTrace", "StartupTrace.cfg", [rrow], chunk=10, par=1, workers=2)
+            chk.cov["traces_validated_against_impl"] += nr
+            if rbad.get("P_EdgeLengthGovernsTheRun"):
+                chk.violation("impl:governs_run:edge_length", "min_edge_length does not govern the resolution of the meshes during the run: the same growing tissue "
+                              "ends with %s nodes for min_edge_length = 0.25 R, 0.33 R, 0.45 R" % rrow["nodes"], {"record": rrow, "scenarios": scns})
     chk.assumptions += ["sign rules are the reader's own diagnostics (doc/parameter_file_doc.md states none): > 0 for duration, time step, sampling period (and >= time step), "
                         "minimum edge length, both cut-offs, isoperimetric ratio; >= 0 for damping, face ids, tensions, strengths, bending modulus; zero damping and INF in "
                         "undocumented places are 'either'", "empty / non-numeric elements belong to C17"]
